@@ -408,7 +408,11 @@ impl Real {
         self.stats_batches += 1;
         let classes: Vec<Class> = ms.iter().map(|m| self.classify(ctx, m)).collect();
         let descr = ms.iter().map(|m| m.desc.clone()).collect::<Vec<_>>().join(",");
-        let detail = json!({"kind": kind, "members": descr, "classes": classes.iter().map(|c| c.tag.clone()).collect::<Vec<_>>(), "lens": [nv, np, npr]});
+        let hexs = |b: &[u8]| b.iter().map(|x| format!("{x:02x}")).collect::<String>();
+        // everything needed to replay: key (relation name, k), raw public inputs, proof bytes
+        let detail = json!({"kind": kind, "members": descr, "classes": classes.iter().map(|c| c.tag.clone()).collect::<Vec<_>>(), "lens": [nv, np, npr],
+            "replay": ms.iter().map(|m| json!({"vk_of_relation": self.rels[m.vk_of].name, "k": self.rels[m.vk_of].k, "public_inputs": m.pi.iter().map(fe_hex).collect::<Vec<_>>(), "proof_hex": hexs(&m.proof)})).collect::<Vec<_>>(),
+            "srs": "ParamsKZG::unsafe_setup(kmax, ChaCha8Rng::seed_from_u64(0xC155125)); relations RelA..RelD of harness/c15/src/real.rs"});
         // the members the model sees are the first `nv` (zip of three slices stops at the shortest,
         // but a mismatch is rejected before)
         let seen: Vec<usize> = (0..nv).map(|i| i % ms.len().max(1)).filter(|_| !ms.is_empty()).collect();
